@@ -1,6 +1,8 @@
 module List = Stdlib.List
 module String = Stdlib.String
 module Buffer = Stdlib.Buffer
+module Array = Stdlib.Array
+module Hashtbl = Stdlib.Hashtbl
 open BinNums
 open Datatypes
 open Util
@@ -37,9 +39,36 @@ let fmt_ops (blk : int) (ops : Mgr.fop list) : string =
   done;
   String.concat "," (List.rev !out)
 
+(* Memory flattening (performance only): the model's memory is a function N -> N built by layering one closure per
+   program / erase.  After every operation the bytes of the ranges that operation touched (they are in its log; programs and
+   erases change nothing outside their range: Nor.program_outside) are evaluated once and cached in a table, and the memory
+   is replaced by the extensionally equal table lookup.  FVM_NOFLAT=1 switches this off (used to cross-check the glue). *)
+let noflat = (try Sys.getenv "FVM_NOFLAT" = "1" with Not_found -> false)
+type flat = { tbl : (int, int * coq_N) Hashtbl.t; mutable gen : int array }
+let flat_lookup (fl : flat) (blk : int) : coq_N -> coq_N =
+  fun x -> let xi = int_of_n x in
+    match Hashtbl.find_opt fl.tbl xi with
+    | Some (g, v) when g = fl.gen.(xi / blk) -> v
+    | _ -> n_of_int 255
+let flatten (fl : flat) (blk : int) (d : Mgr.dev) (ops : Mgr.fop list) (extra : (int * int) list) : Mgr.dev =
+  if noflat then d else begin
+    (* phase 1: evaluate the layered function at every programmed address (reads see the table as it was before this
+       operation); phase 2: erased blocks get a new generation (their cached bytes become stale = erased), then the new
+       values are stored *)
+    let fresh = Hashtbl.create 64 in
+    let eval (a, len) = for x = a to a + len - 1 do
+        if not (Hashtbl.mem fresh x) then Hashtbl.replace fresh x (d.Mgr.dmem (n_of_int x)) done in
+    List.iter (function Mgr.FProg (a, len, _, _) -> eval (int_of_n a, int_of_n len) | Mgr.FErase _ -> ()) ops;
+    List.iter eval extra;
+    List.iter (function Mgr.FErase a -> let b = int_of_n a / blk in fl.gen.(b) <- fl.gen.(b) + 1 | _ -> ()) ops;
+    Hashtbl.iter (fun x v -> Hashtbl.replace fl.tbl x (fl.gen.(x / blk), v)) fresh;
+    { d with Mgr.dmem = flat_lookup fl blk }
+  end
+
 let run_case ~(checked : bool) ~(ffr : bool) (nslots : int) (slot : int) (blk : int) (ops : string list) : string =
   let m = { Mgr.m_slots = nat_of_int nslots; m_size = n_of_int slot } in
   let dev = ref (Mgr.blank_dev (n_of_int (nslots * slot)) (n_of_int blk)) in
+  let fl = { tbl = Hashtbl.create 4096; gen = Array.make (nslots * slot / blk + 2) 0 } in
   let sess : Mgr.updater option ref = ref None in
   let dead = ref false in
   let last_bl : int option ref = ref None in
@@ -136,7 +165,7 @@ let run_case ~(checked : bool) ~(ffr : bool) (nslots : int) (slot : int) (blk : 
         | "raw", [a; h] ->
           let len = String.length h / 2 in
           let a = int_of_string ("0x" ^ a) in
-          if a + len <= nslots * slot then dev := Mgr.poke !dev (n_of_int a) (n_of_int len) (n_of_le_hex h);
+          if a + len <= nslots * slot then dev := flatten fl blk (Mgr.poke !dev (n_of_int a) (n_of_int len) (n_of_le_hex h)) [] [(a, len)];
           "-"
         | ("dump" | "dumpbl"), dargs ->
           let (i, off, len) = match dargs with [i; off; len] -> (i, off, len) | [off; len] -> ((match !last_bl with Some i -> string_of_int i | None -> "0"), off, len) | _ -> ("0", "0", "0") in
@@ -160,10 +189,10 @@ let run_case ~(checked : bool) ~(ffr : bool) (nslots : int) (slot : int) (blk : 
           (* the device is dead: keep the log prefix, the memory of the crash, nothing armed *)
           let d0 = Mgr.with_mem before mem' in
           let keep = firstn k newops in
-          dev := { d0 with Mgr.dlog = List.rev_append keep before.Mgr.dlog };
+          dev := flatten fl blk { d0 with Mgr.dlog = List.rev_append keep before.Mgr.dlog } (firstn (k + 1) newops) [];
           dead := true; crash := None; sess := None;
           "X", keep
-        | _ -> tok, newops in
+        | _ -> dev := flatten fl blk !dev newops []; tok, newops in
       let lg = fmt_ops blk shown in
       out := (if lg = "" then tok else tok ^ "[" ^ lg ^ "]") :: !out) ops;
   String.concat " ; " (List.rev !out)
